@@ -16,8 +16,8 @@ def is_nan(x):
 
 
 SERIES_T = ["hampel", "imputer-mean", "imputer-ffill", "imputer-linear", "imputer-drift", "imputer-placeholder", "log", "boxcox-pearsonr", "adaptor", "detrender", "deseasonalizer", "passthrough", "cosine"]
-FORECASTERS = ["naive-last", "naive-mean", "naive-drift", "naive-drift-failing-predict", "poly", "sm-adapter", "reduce-recursive", "ensemble", "pipeline"]
-PANEL_T = ["padding", "truncation", "paa", "tabularizer", "concatenator", "interval", "sliding", "features", "pca", "random-interval", "derivative-slope"]
+FORECASTERS = ["naive-last", "naive-mean", "naive-drift", "naive-drift-failing-predict", "poly", "sm-adapter", "reduce-recursive", "reduce-direct", "ensemble", "pipeline"]
+PANEL_T = ["padding", "truncation", "paa", "tabularizer", "concatenator", "interval", "sliding", "features", "pca", "random-interval", "derivative-slope", "plateau"]
 
 
 def _contract_pca(getW):
@@ -114,9 +114,13 @@ class C12(Harness):
             return int(v)
 
         if cell["kind"] == "pt":
-            c = {"kind": {"interval": "interval-int", "pca": "concatenator", "random-interval": "features", "derivative-slope": "concatenator"}.get(cell["which"], cell["which"])}
+            c = {"kind": {"interval": "interval-int", "pca": "concatenator", "random-interval": "features", "derivative-slope": "concatenator", "plateau": "sliding"}.get(cell["which"], cell["which"])}
             _c14.HARNESS._tier = "quick"
             inp = _c14.HARNESS.inputs(ctx, c)
+            if cell["which"] == "plateau":
+                # (every cell value is compared with the plateau value: one fork per value, so a small panel)
+                if len(inp["x"]) > 2 or len(inp["x"][0][0]) > 3 or inp.get("w", 1) != 1:
+                    ctx.assume(False)
             if cell["which"] == "derivative-slope":
                 if len({len(col) for inst in inp["x"] for col in inst}) != 1 or len(inp["x"][0][0]) < 3:
                     ctx.assume(False)  # equal-length series of at least three points
@@ -337,6 +341,21 @@ class C12(Harness):
                     return np.array([W.uf("reg_%d" % len(flat), flat, "r" * len(flat) + ">r")])
 
             f = W.load("sktime.forecasting.compose._reduce").make_reduction(Reg(), window_length=2)
+        elif w == "reduce-direct":
+            from sklearn.base import BaseEstimator, RegressorMixin
+
+            class Reg(RegressorMixin, BaseEstimator):
+                def fit(self, X, y):
+                    self.t_ = S(L(y)[0])  # (a trace of the step this copy was trained for)
+                    return self
+
+                def predict(self, X):
+                    flat = []
+                    for row in L(X):
+                        flat.extend(row)
+                    return np.array([W.uf("dreg_%d" % len(flat), flat + [self.t_], "r" * (len(flat) + 1) + ">r")])
+
+            f = W.load("sktime.forecasting.compose._reduce").make_reduction(Reg(), strategy="direct", window_length=2)
         elif w == "ensemble":
             f = W.load("sktime.forecasting.compose._ensemble").EnsembleForecaster([("a", NF()), ("b", Member(p=1))])
         else:
@@ -352,9 +371,10 @@ class C12(Harness):
         out["index_type"] = [norm(yin_type), norm(type(y.index).__name__)]
         before = self._snapshot(f)
         p1 = f.predict()
+        r1_first = pack(p1)
         mid = self._snapshot(f)
         p2 = f.predict()
-        out["r1"], out["r2"] = pack(p1), pack(p2)
+        out["r1"], out["r2"] = r1_first, pack(p2)
         out["y_after_predict"] = pack(y)
         out["state"] = [before, mid, self._snapshot(f)]
         # a result must not depend on which other apply-type calls came before: the absolute horizon {1, 2} asked
@@ -365,13 +385,19 @@ class C12(Harness):
         n = len(inp["y"])
         y2 = pd.Series(list(inp["y"]), index=pd.RangeIndex(-n, 0))
         res = []
-        for warm in (False, True):
+        for warm in ((False, True) if w != "reduce-direct" else ()):  # (the direct reducer needs its horizon at fit)
             g = clone(f)
             g.fit(y2)
             if warm:
                 g.predict(np.array([1, 2]))
             res.append(pack(g.predict(FHc(np.array([1, 2]), is_relative=False))))
-        out["interleave"] = res
+        if res:
+            out["interleave"] = res
+        if w != "sm-adapter":
+            # a forecast handed to the caller is the caller's: later data and a later forecast do not rewrite it
+            f.update(ser(inp["z"][:2], s0 + n), update_params=False)
+            f.predict()
+            out["r1_kept"] = [r1_first, pack(p1)]
         if w.startswith("naive"):
             # window forecasters produce in-sample steps by walking their own data: asking twice gives the same answer
             g = clone(f)
@@ -403,7 +429,11 @@ class C12(Harness):
             DS = W.load("sktime.transformations.panel.summarize._extract").DerivativeSlopeTransformer
             return {"cells": _c14.cells_of(DS().fit(XX).transform(XX))}
 
-        run = _der if w == "derivative-slope" else (lambda XX: self._pca(W, XX, inp)) if w == "pca" else (lambda XX: c14._panel(W, XX, inp, {"kind": {"random-interval": "features"}.get(w, w)}, sym))
+        def _plateau(XX):
+            PF = W.load("sktime.transformations.panel.summarize._extract").PlateauFinder
+            return {"cells": _c14.cells_of(PF(value=1.0, min_length=1).fit(XX).transform(XX))}
+
+        run = _plateau if w == "plateau" else _der if w == "derivative-slope" else (lambda XX: self._pca(W, XX, inp)) if w == "pca" else (lambda XX: c14._panel(W, XX, inp, {"kind": {"random-interval": "features"}.get(w, w)}, sym))
         worlds.TOKEN_MODE[0] = sym
         try:
             before = _c14.cells_of(X)
@@ -430,6 +460,12 @@ class C12(Harness):
                         short = type(e).__name__
                     s2_ = self._snapshot(t)
                     a2 = _c14.cells_of(t.transform(X)) if w != "tabularizer" else [[S(v) for v in row] for row in t.transform(X).to_numpy().tolist()]
+                    if w == "plateau":
+                        # the finder keeps its last result lists on the object (overwritten at the start of every call):
+                        # not fitted state; what counts is that repeated calls agree (a1 / a2 below)
+                        for sn in (s0_, s1_, s2_):
+                            sn.pop("_starts", None)
+                            sn.pop("_lengths", None)
                     out["proto"] = {"snaps": [s0_, s1_, s2_], "a1": a1, "a2": a2, "short": short}
                 except ValueError:
                     out["proto"] = None
@@ -463,6 +499,8 @@ class C12(Harness):
             return W.load(P + ".segment").RandomIntervalSegmenter(n_intervals=2, random_state=inp["seed"])
         if w == "sliding":
             return W.load(P + ".segment").SlidingWindowSegmenter(window_length=inp["w"])
+        if w == "plateau":
+            return W.load(P + ".summarize._extract").PlateauFinder(value=1.0, min_length=1)
         return None
 
     def _pca(self, W, X, inp):
@@ -533,6 +571,8 @@ class C12(Harness):
             self._same_tree(P, "repeated-apply-same-result", sp_["a2"], sp_["a1"], dict(d, what="another detrender built from the same forecaster object was fitted in between"))
         if "insample_twice" in out:
             self._same_tree(P, "repeated-apply-same-result", out["insample_twice"][1], out["insample_twice"][0], dict(d, what="predict() repeated with an in-sample horizon given at fit"))
+        if "r1_kept" in out:
+            self._same_tree(P, "apply-leaves-caller-data-unchanged", out["r1_kept"][1], out["r1_kept"][0], dict(d, what="an earlier returned forecast after update(update_params=False) and another predict"))
         if "interleave" in out:
             self._same_tree(P, "repeated-apply-same-result", out["interleave"][1], out["interleave"][0], dict(d, what="after an interleaved predict with another horizon"))
             for lab, want in zip(out["interleave"][0][0], (1, 2)):
